@@ -421,7 +421,7 @@ func DrawEnv(t *rapid.T, opt EnvOpt) *Env {
 		for i := 0; i < n; i++ {
 			prefix := pick(t, "udprefix", []string{"deriveEqual", "deriveCompare", "deriveHash", "deriveDeepCopy", "deriveKeys", "deriveSort",
 				"deriveClone", "deriveGoString", "deriveContains", "deriveSet", "deriveTuple", "deriveFmap", "deriveJoin", "deriveMin"})
-			name := prefix + pick(t, "udsuffix", []string{"_", "_", "_1", "_2", "_S", "_K", "_M", "_3"})
+			name := prefix + pick(t, "udsuffix", []string{"_", "_", "", "_1", "_2", "_S", "_K", "_M", "_3"})
 			if seen[name] {
 				continue
 			}
